@@ -710,6 +710,15 @@ def mem_probes(pool, G, xl_rid):
     return ps
 
 
+def mem_reconnect_tail(pool, G, rids):
+    """After the history (whose last update may have been refused, which ends the connection): connect again to the same
+    daemon and check the translation of every region in turn (a refused translation ends the connection again)."""
+    tail = []
+    for r in rids:
+        tail += [dict(op="reconnect"), MEM_NEG, mem_probes(pool, G, r)[-1]]
+    return tail
+
+
 def run_C13(ctx):
     trans = ctx.tlc_mc("MC_Mem", "MC_Mem_" + ctx.tier)
     rnd = random.Random(ctx.seed)
@@ -725,6 +734,8 @@ def run_C13(ctx):
         # the translation probe of a region outside the table ends the connection: one session per probed region
         for xl in range(5):
             st = steps + (mem_probes(pool, G, xl) if xl == i % 5 else mem_probes(pool, G, xl)[-1:])
+            if xl == i % 5:
+                st = st + mem_reconnect_tail(pool, G, [(xl + 1 + k) % 5 for k in range(5)])
             cases.append(dict(nq=1, masks=[1], pool=pool, vring="rwlock" if i % 2 else "mutex", adapter=("arc", "mutex", "rwlock")[i % 3], steps=st))
     # all histories (no state merging) over single-region letters: history-dependent slips (stale translation entries ...)
     hist = ctx.tlc_mc("MC_Mem", "MC_Mem_hist_" + ctx.tier)
@@ -738,6 +749,8 @@ def run_C13(ctx):
         touched = sorted({r for lt in letters for r in (lt.get("rids") or [lt.get("rid")])})
         for k, xl in enumerate(touched):
             st = [MEM_NEG] + letters + (mem_probes(pool, G, xl) if k == 0 else mem_probes(pool, G, xl)[-1:])
+            if k == 0:
+                st = st + mem_reconnect_tail(pool, G, range(5))
             cases.append(dict(nq=1, masks=[1], pool=pool, vring="rwlock" if i % 2 else "mutex", steps=st))
     cases = replay_or(ctx, "daemon", cases)
     tr = ctx.harness("daemon", cases, shards=12)
@@ -755,7 +768,7 @@ def run_C13(ctx):
         "through the backend's guest memory at gpa+o and back, edges +-1 are probed, the update_memory snapshot and count are compared, and "
         "a SET_VRING_ADDR with user addresses inside one pool region checks the translation through the queue's addresses.",
         ASSUME_COMMON + ["whether a legal but unsorted table is accepted is left open (only consistency with the reported outcome is judged)",
-                         "the daemon ends the connection after a failed update; the memory state is then probed through the handle the backend was given"],
+                         "the daemon ends the connection after a failed update; the memory state is then probed through the handle the backend was given and the translation table through new connections to the same daemon"],
         viol)
 
 
